@@ -14,10 +14,10 @@ P = {
          "values with nested or repeated entity references: correspondence (one reference between literal parts is proved in C07)"),
  'C06': ("`pushNs_spec` (deduplicating table, 16-bit index bound), `scoping` (own declaration, else the parent's resolution), `prefix_lookup_is_first_binding`, `element_namespace` / `element_xml_prefix` (every element of every parsed document is in the namespace its prefix resolves to in its own scope; undeclared prefix impossible in an accepted document), `attribute_namespaces` (the attribute list of every completed start tag is the non-declaration attributes in source order, each in the namespace its prefix resolves to in the element's own scope; unprefixed: none; every used prefix is declared).",
          "whole documents against an independent resolver: correspondence"),
- 'C07': ("`entity_reference_equals_replacement_text` (for every abstract document and every run of children moved into an internal general entity, the hoisted document parses to exactly the tree of the inline document), `entity_reference_in_attribute_value` (p&name;q normalises to the normalisation of p, the replacement text and q), first declaration wins, a declaration after the first use is found.",
-         "nested / repeated references and references adjacent to text are decided by the hoisting special run (implementation vs implementation, and vs model)"),
- 'C08': ("85 theorems: the implementation's Char/NameStartChar/NameChar/S tables equal XML 1.0 5th ed. (re-checked against the built crate on every run); `delivered_tokens_lexical`; every rejection rule stated outright in Props/C08Reject (mismatched/stray end tag, entity boundary, no/unclosed root, duplicate attribute, duplicate namespace declaration incl. xml, undeclared prefix, xml/xmlns misuse, undefined/malformed references, '<' in attribute values, '--' in comments, ']]>' in text, detector limits, DtdDetected).",
-         "grammar soundness as one statement: correspondence + ill-forming catalogue"),
+ 'C07': ("`entity_reference_equals_replacement_text` (for every abstract document and every run of children moved into an internal general entity, the hoisted document parses to exactly the tree of the inline document), `entity_reference_in_attribute_value` (p&name;q normalises to the normalisation of p, the replacement text and q), `entity_text_merges_with_neighbours` (a reference inside a run of character data contributes its replacement text to the run, which stays one text node), first declaration wins, a declaration after the first use is found.",
+         "nested / repeated references are decided by the hoisting special run (implementation vs implementation, and vs model)"),
+ 'C08': ("`accepted_is_wellformed` (grammar soundness: every input accepted under the default allow_dtd=false is the concrete syntax of a well-formed XML 1.0 document, production [1] document with all sub-productions and well-formedness constraints, documented leniencies explicit in the grammar Spec/Grammar.lean; its proof exposed the defects D17, D18, D19); further 85 theorems: the implementation's Char/NameStartChar/NameChar/S tables equal XML 1.0 5th ed. (re-checked against the built crate on every run); `delivered_tokens_lexical`; every rejection rule stated outright in Props/C08Reject (mismatched/stray end tag, entity boundary, no/unclosed root, duplicate attribute, duplicate namespace declaration incl. xml, undeclared prefix, xml/xmlns misuse, undefined/malformed references, '<' in attribute values, '--' in comments, ']]>' in text, detector limits, DtdDetected).",
+         "documents with a DOCTYPE (internal subset): rejection rules + correspondence + ill-forming catalogue"),
  'C09': ("`accepts_iff`/`walk_inner`/`walk_top` (exact acceptance set of the loop detector: nesting <= 10, <= 255 nested references per top-level reference, unbounded at depth 0), `parse_walks_protocol` (the builder touches the detector only by walking that protocol over the forest of expanded references), `node_count_bound` (a successful parse has at most 256 x input length x (number of '&' + 1) nodes: expansion is polynomially bounded for every input).",
          "wall time and memory of the real run: observed by the entities special run"),
  'C10': ("`parsed_api_total`: every accessor, lookup and iterator is total (no panic, terminates within nodes.len() steps) on every node of every parsed document; `textPosAt_never_panics`.", "Debug formatting at scale: observed"),
